@@ -37,6 +37,7 @@ def run(ck):
     ck.rule("R3", "a recorded address/base is returned before anything is allocated", floor=2)
     ck.rule("R4", "the cursor advances on every allocation", floor=2)
     ck.rule("R5", "the address recorded for a (library, function) key that was not known comes from the cursor only", floor=1)
+    _key_rules(ck)
 
     base_fn = meths.get("lib_get_add_base")
     func_fn = meths.get("lib_get_add_func")
@@ -151,7 +152,9 @@ def run(ck):
     for n in walk_body(fn):
         if isinstance(n, ast.AugAssign) and isinstance(n.op, ast.Add) and isinstance(n.target, ast.Subscript) and dotted(n.target.value) and dotted(n.target.value).startswith("self."):
             cursor = norm(n.target)
-    ck.need(cursor is not None, "libimp.lib_get_add_func: the stub cursor (augmented subscript of a self table) was not found")
+    if cursor is None:
+        ck.ob("R5", "lib_get_add_func:new-key-address", False, m.where(fn), "lib_get_add_func has no advancing stub cursor to take fresh addresses from")
+        return
     k5 = 0
     for n in walk_body(fn):
         if isinstance(n, ast.Assign) and len(n.targets) == 1 and isinstance(n.targets[0], ast.Subscript) and norm(n.targets[0]).startswith("self.lib_imp2ad["):
@@ -164,3 +167,24 @@ def run(ck):
                   "imports whose derived names coincide share one stub" % (bad, cursor))
     ck.need(k5 >= 1, "libimp.lib_get_add_func: the store into lib_imp2ad was not found")
 
+
+
+def _key_rules(ck):
+    """R6: the tables of libimp are probed and filled under the same key (sa/keyconsist): a module or function name is brought to its
+    canonical form BEFORE the table is consulted, never between the lookup and the store."""
+    from sa.keyconsist import mismatches
+    ck.rule("R6", "a table of the import registry is filled under the very key it was probed with", floor=2)
+    m = ck.repo.mod(REL)
+    n = 0
+    for q, fn in sorted(m.funcs.items()):
+        if not q.startswith("libimp."):
+            continue
+        mm = mismatches(fn)
+        has_tables = any(isinstance(x, ast.Subscript) and norm(x.value).startswith("self.") for x in walk_body(fn))
+        if not has_tables:
+            continue
+        n += 1
+        ck.ob("R6", "%s:probe-key-is-store-key" % q, not mm, m.where(mm[0]["rebind"].ast if mm and mm[0]["rebind"] is not None else fn),
+              "%s is consulted with `%s` (%s) but `%s` is rebound on every path to the store `%s`: the entry is created under another key, so "
+              "the same module is registered again at a new base on every call" % (
+                  (mm[0]["table"], mm[0]["key"], m.where(mm[0]["probe"].ast), mm[0]["key"], norm(mm[0]["store"].ast)[:50]) if mm else ("", "", "", "", "")))
